@@ -55,8 +55,8 @@ def cases(tier, seed):
     for t in range(200 if thorough else 60):
         n = int(rs.randint(4, nmax + 1))
         out.append({'kind': 'nav', 'n': n, 'p': float(rs.choice([.15, .25, .4, .7])), 'gs': int(rs.randint(1 << 30)),
-                    'dk': ['euclid', 'euclid', 'adversarial', 'intties'][t % 4], 'w': ['bin', 'real', 'int'][t % 3],
-                    'disc': t % 5 == 0})
+                    'dk': ['euclid', 'euclid', 'adversarial', 'intties', 'hopdist'][t % 5], 'w': ['bin', 'real', 'int'][t % 3],
+                    'disc': t % 5 in (0, 4)})
     for g in G.structured_und(9, seeds=(seed,)):
         out.append({'kind': 'nav', 'g': g, 'gs': seed, 'dk': 'euclid', 'w': 'bin', 'disc': False})
     return out
@@ -160,6 +160,9 @@ def nav_inputs(case):
         D = rs.rand(n, n)
         D = np.triu(D, 1)
         D = D + D.T
+    elif case['dk'] == 'hopdist':   # topological distance as the nodal distance: inf between components
+        from .. import oracles as OO
+        D = OO.floyd((L != 0).astype(float))
     else:
         D = rs.randint(1, 4, size=(n, n)).astype(float)
         D = np.triu(D, 1)
@@ -170,7 +173,7 @@ def nav_inputs(case):
 def run_nav(case, bct, REC):
     L, D = nav_inputs(case)
     n = len(L)
-    ties = case['dk'] == 'intties'
+    ties = case['dk'] in ('intties', 'hopdist')
     mhs = [n, 1, 2] if ties else [None, 1, 2, n]
     for mh in mhs:
         REC.tag(PROP, 'exec')
